@@ -45,7 +45,7 @@ def legal_modes(cfg):
     return ms
 
 
-def random_config(rng, allow_virt=True, allow_lpae=True, archs=(6, 7, 7, 7, 5)):
+def random_config(rng, allow_virt=True, allow_lpae=True, archs=(6, 7, 7, 7, 5), extras=False):
     cfg = {'arch_version': rng.choice(archs)}
     sec = rng.random() < 0.7
     virt = allow_virt and sec and rng.random() < 0.3
@@ -56,6 +56,22 @@ def random_config(rng, allow_virt=True, allow_lpae=True, archs=(6, 7, 7, 7, 5)):
     if virt:
         cfg['arch_version'] = 7
     cfg['number_of_mpu_regions'] = rng.choice([12, 12, 8, 16, 4])
+    if extras:
+        # rarely-used configuration switches (swarm): execution-environment extensions, implementation-defined reset vector, MP/ARMv7-R flags
+        if rng.random() < 0.08:
+            cfg['have_thumbee'] = True
+        if rng.random() < 0.08:
+            cfg['have_jazelle'] = True
+            cfg['jazelle_accepts_execution'] = bool(rng.getrandbits(1))
+        if rng.random() < 0.1:
+            cfg['has_imp_def_reset_vector'] = True
+            cfg['impdef_reset_vector'] = rng.choice([0, 0x100, 0xFFFF0000, CODE])
+        if rng.random() < 0.1:
+            cfg['is_armv7r_profile'] = True
+        if rng.random() < 0.1:
+            cfg['have_mp_ext'] = True
+        if rng.random() < 0.05:
+            cfg['arch_version'] = 4 if not virt else 7
     return cfg
 
 
